@@ -183,7 +183,7 @@ func checkMain(args []string) {
 			sels = append(sels, sel{r, ob})
 		}
 	}
-	timeout := 10
+	timeout := 20
 	cross := false
 	if *tier == "thorough" {
 		timeout = 60
